@@ -398,6 +398,13 @@ def run(R):
     R.extra['programs_rejected_by_front_end'] = tot['rejected']
     R.extra['accepted_api_calls_checked'] = tot['api_calls_checked']
     R.extra['text_level_inference'] = text
+    R.extra['observations'] = [
+        'not a finding (types agree at the `typ` level): `intervals[mt.col_idx]` inside annotate_cols is accepted by '
+        'Table._index (only `is_interval and all_matches` is excluded for columns) and emits MatrixAnnotateColsTable over an '
+        'interval-keyed table; TypeCheck.scala only asserts that the root is a new column field, but LowerMatrixIR turns the '
+        'node into get(Dict[Struct{iv:Interval[T]},V], Struct{iv:T}), which cannot resolve in the engine',
+        'not a finding: impute_type of a list of heterogeneous dicts/Structs orders the fields of the unified element struct '
+        'by the iteration order of a Python set of types (PYTHONHASHSEED dependent)']
     R.extra['text_level_not_inferred_nodes'] = dict(sorted(not_inf.items(), key=lambda kv: -kv[1])[:20])
     R.log(f"[C36] part B: programs={tot['paths']} accepted_calls_checked={tot['api_calls_checked']} text={text}")
     if tot['api_calls_checked'] == 0 or text['expr_inferred'] == 0 or text['table_inferred'] == 0 or \
